@@ -128,7 +128,7 @@ Definition tree_case := tree_case_b [].
 
 (* is the expanded forest nested as the context table prescribes? (hypothesis of the totality
    theorem of the catalog builder, Props/C01.v) - None when there is no expanded forest *)
-Definition placed_case (fs : fsmap) (root : bytes) (ot : otable) (et : etable) (fuel : nat) : option bool :=
+Definition placed_case (fs : fsmap) (root : bytes) (ot : otable) (et : etable) (fuel : nat) : option (bool * bool) :=
   match fs_lookup fs root with
   | Some (FFile content) =>
       let st0 := initial_cstate ScannerProg.initial_state root content in
@@ -144,7 +144,7 @@ Definition placed_case (fs : fsmap) (root : bytes) (ot : otable) (et : etable) (
             | None => None
             end in
           match compile_macros echeck (Nat.min fuel 600) (cs_forest st) with
-          | XOk ex => Some (forallb (placed 64 None) (ex_forest ex))
+          | XOk ex => Some (forallb (placed None) (ex_forest ex), macros_on_top (cs_forest st))
           | _ => None
           end
       | _ => None
